@@ -398,6 +398,14 @@ def _q_min_max(env, nparts=4, col="c"):
     return A[col].max() - A[col].min()
 
 
+def _q_sort_k(env, i=0):
+    """a family of sorts with pairwise different `divisions_lru` keys (frame partitioning x column)"""
+    nparts = 5 + i % 5
+    col = "abcs"[(i // 5) % 4]
+    keys = [col, "a"] if col != "a" else ["a"]
+    return env.A(nparts).sort_values(keys, shuffle_method="tasks")
+
+
 def _q_sort_head(env, by="c", n=4, nparts=4):
     keys = [by, "a"] if by != "a" else ["a"]
     return env.A(nparts).sort_values(keys, shuffle_method="tasks").head(n, compute=False)
@@ -463,6 +471,7 @@ POOL = {
     "fillna": (_q_fillna, {}, [("v", 1), ("nparts", 3)], {}),
     "shift": (_q_shift, {}, [("periods", 2), ("nparts", 3)], {}),
     "min_max": (_q_min_max, {}, [("col", "a"), ("nparts", 3)], {}),
+    "sort_k": (_q_sort_k, {}, [("i", k) for k in range(1, 16)], {"tags": ["sort"]}),
     "sort_head": (_q_sort_head, {}, [("by", "a"), ("n", 5), ("nparts", 3)], {"tags": ["sort"]}),
 }
 
